@@ -52,7 +52,7 @@ MANIFEST = dict(
               "with column/slice tags + loop unrolling over constant ranges "
               "+ effect summaries",
 )
-FLOORS = {"C20.1": 20, "C20.2": 4, "C20.3": 6, "C20.4": 8, "C20.5": 3,
+FLOORS = {"C20.1": 20, "C20.2": 20, "C20.3": 16, "C20.4": 8, "C20.5": 3,
           "C20.6": 8, "C20.8": 7}
 
 PL = "evo.tools.plot."
@@ -142,132 +142,301 @@ def check(ctx):
 
 
 # --------------------------------------------------------------------- C20.2
+def _flat_args(args) -> Optional[list]:
+    """positional arguments with `*[a, b, ...]` of a known list expanded;
+    None if a starred argument is not a known list"""
+    out = []
+    for a in args:
+        if a.op == "star":
+            inner = Interp.unname(a.args[0])
+            arr = _selected(inner)
+            if arr is not None:
+                out.extend(arr)
+                continue
+            if inner.op not in ("list", "tuple") or any(
+                    x.op == "star" for x in inner.args):
+                return None
+            out.extend(inner.args)
+        else:
+            out.append(a)
+    return out
+
+
+def _selected(t: T) -> Optional[list]:
+    """the items of an array selection with a constant column list:
+    P[:, [c..]].T -> the columns P[:, c];  P[r, [c..]] -> the entries
+    P[r][c]"""
+    tr = False
+    if t.op == "attr" and t.args[1] == "T":
+        t, tr = Interp.unname(t.args[0]), True
+    elif is_call_to(t, ".transpose", "numpy.transpose") and not t.args[2]:
+        t = Interp.unname(tm.method_recv(t) if t.args[0].op == "attr"
+                          else t.args[1][0])
+        tr = True
+    if t.op != "sub" or t.args[1].op != "tuple" or \
+            len(t.args[1].args) != 2:
+        return None
+    r, c = t.args[1].args
+    c = Interp.unname(c)
+    if c.op not in ("list", "tuple") or not all(tm.is_const(x)
+                                                for x in c.args):
+        return None
+    if tr and r is ALL:
+        return [_col(t.args[0], x) for x in c.args]
+    if not tr and tm.is_const(r):
+        return [tm.sub(tm.sub(t.args[0], r), x) for x in c.args]
+    return None
+
+
+def _mode_idx(prog, pmq, m):
+    """plot_mode_to_idx(PlotMode.m), folded (C20.1 decides its values)"""
+    r = Interp(prog, inline=_helpers).run(
+        prog.func(PL + "plot_mode_to_idx"), {"plot_mode": tm.enum(pmq, m)})
+    if r.ret.op != "tuple" or not all(tm.is_const(a) for a in r.ret.args):
+        return None
+    return [a.args[1] for a in r.ret.args]
+
+
 def _traj(ctx, prog):
+    """decided per plot mode: with the mode fixed, the index helper folds to
+    its three constants and every spelling of "take the columns the mode
+    names" (unpacked indices, a filtered list of them, *coords) evaluates to
+    the same argument list"""
     f = prog.func(PL + "traj")
-    r = Interp(prog, inline=_helpers).run(f)
-    mode = tm.param("plot_mode")
-    PMI = tm.call(tm.func(PL + "plot_mode_to_idx"), (mode,), ())
+    g = prog.func(PL + "add_start_end_markers")
+    pmq = prog.cls(PM).qualname
     pos = tm.attr(tm.param("traj"), "positions_xyz")
-    plots = [e for e in r.of_kind("call") if e.data.get("name") == ".plot"]
-    ctx.require(len(plots) == 2, "traj(): expected two ax.plot call sites")
-    is3d = T("cmp", "Eq", mode, tm.enum(prog.cls(PM).qualname, "xyz"))
-    for e in plots:
-        three = tm.fold(e.live, lambda t: True if t is is3d else None) \
-            is not False and tm.fold(
-                e.live, lambda t: False if t is is3d else None) is False
-        n = 3 if three else 2
-        data = e.data["args"][:n]
-        ok = len(e.data["args"]) >= n and all(
-            data[k] is _col(pos, tm.sub(PMI, const(k))) for k in range(n))
-        nxt = e.data["args"][n] if len(e.data["args"]) > n else None
+    inl = lambda fn: _helpers(fn) or fn.qualname == PL + "plot_mode_to_idx"
+    for m in prog.enum_members(PM):
+        idx = _mode_idx(prog, pmq, m)
+        ctx.require(idx is not None, f"plot_mode_to_idx({m}) does not fold "
+                    f"to constants")
+        shown = [i for i in idx if i is not None]
+        cfg = {"plot_mode": tm.enum(pmq, m)}
+        r = Interp(prog, inline=inl).run(f, cfg)
+        ctx.analysed["configs"] += 1
+        plots = [e for e in r.of_kind("call")
+                 if e.data.get("name") == ".plot" and
+                 not tm.is_const(e.live, False)]
+        ctx.require(len(plots) == 1, f"traj({m}): expected one reachable "
+                    f"ax.plot call, found {len(plots)}")
+        e = plots[0]
+        args = _flat_args(e.data["args"])
+        if args is None:
+            ctx.undecidable("C20.2", e, f"traj({m}): starred plot arguments "
+                            f"are not a known list")
+            continue
+        n = len(shown)
+        data = args[:n]
+        ok = len(args) >= n and all(
+            data[k] is _col(pos, const(shown[k])) for k in range(n))
+        nxt = args[n] if len(args) > n else None
         ok = ok and (nxt is None or nxt is tm.param("style"))
         ctx.ob("C20.2", e, ok,
-               f"traj(): {'3-D' if three else '2-D'} line = positions[:, "
-               f"idx_k] for k = 0..{n - 1} of plot_mode_to_idx(plot_mode)"
-               if ok else
-               f"traj(): data arguments are {[fmt(a) for a in data]} — "
-               f"axis k must show positions[:, plot_mode_to_idx(mode)[k]]",
-               key=f"C20.2:traj:{'3d' if three else '2d'}")
-    g = prog.func(PL + "add_start_end_markers")
-    rg = Interp(prog, inline=_helpers).run(g)
-    sc = [e for e in rg.of_kind("call") if e.data.get("name") == ".scatter"]
-    ctx.require(len(sc) == 2, "add_start_end_markers: scatter calls not "
-                "found")
-    for e, which, idx in ((sc[0], "start", 0), (sc[1], "end", -1)):
-        p = tm.sub(pos, const(idx))
-        coords = e.data["args"]
-        # *coords expands a 2-element list (+ appended z under xyz)
-        flat = []
-        for a in coords:
-            if a.op == "star":
-                a = a.args[0]
-                for alt in tm.strip_ite(a):
-                    while alt.op == "mut" and alt.args[1] == "append":
-                        alt = alt.args[0]
-                    if alt.op == "list":
-                        flat = list(alt.args)
-                zs = [x.args[2][0] for x in a.walk()
-                      if x.op == "mut" and x.args[1] == "append"]
-            else:
-                flat.append(a)
-                zs = []
-        ok = flat[:2] == [tm.sub(p, tm.sub(PMI, const(0))),
-                          tm.sub(p, tm.sub(PMI, const(1)))] and \
-            all(z is tm.sub(p, tm.sub(PMI, const(2))) for z in zs)
-        ctx.ob("C20.2", e, ok,
-               f"{which} marker at the {which} position's (idx_x, idx_y"
-               f"[, idx_z]) coordinates" if ok else
-               f"{which} marker coordinates are {[fmt(x) for x in flat]}",
-               key=f"C20.2:marker:{which}")
+               f"traj({m}): line = positions[:, k] for k = {shown} "
+               f"(plot_mode_to_idx), then the style" if ok else
+               f"traj({m}): plot arguments are {[fmt(a) for a in args[:n+1]]}"
+               f" — axis k must show positions[:, plot_mode_to_idx(mode)[k]]"
+               f" = columns {shown}",
+               key=f"C20.2:traj:{m}")
+        rg = Interp(prog, inline=inl).run(g, cfg)
+        sc = [e for e in rg.of_kind("call")
+              if e.data.get("name") == ".scatter" and
+              not tm.is_const(e.live, False)]
+        ctx.require(len(sc) == 2, "add_start_end_markers: scatter calls not "
+                    "found")
+        for e, which, k in ((sc[0], "start", 0), (sc[1], "end", -1)):
+            p = tm.sub(pos, const(k))
+            # *coords: a list literal, possibly grown by append
+            coords = []
+            for a in e.data["args"]:
+                if a.op == "star":
+                    inner = Interp.unname(a.args[0])
+                    extra = []
+                    while inner.op == "mut" and inner.args[1] == "append":
+                        extra.insert(0, inner.args[2][0])
+                        inner = inner.args[0]
+                    a = T("star", T("list", *(list(inner.args) + extra))) \
+                        if inner.op in ("list", "tuple") else a
+                coords.append(a)
+            flat = _flat_args(coords)
+            if flat is None:
+                ctx.undecidable("C20.2", e, f"{which} marker ({m}): starred "
+                                f"coordinates are not a known list")
+                continue
+            ok = flat[:len(shown)] == [tm.sub(p, const(i)) for i in shown]
+            ctx.ob("C20.2", e, ok,
+                   f"{which} marker ({m}) at the {which} position's "
+                   f"coordinates {shown}" if ok else
+                   f"{which} marker ({m}) coordinates are "
+                   f"{[fmt(x) for x in flat[:3]]}, expected columns {shown} "
+                   f"of the {which} position",
+                   key=f"C20.2:marker:{which}:{m}")
 
 
 # --------------------------------------------------------------------- C20.3
-def _segments(ctx, prog):
-    f = prog.func(PL + "colored_line_collection")
-    r = Interp(prog, inline=_helpers).run(f)
-    mode = tm.param("plot_mode")
-    PMI = tm.call(tm.func(PL + "plot_mode_to_idx"), (mode,), ())
-    xyz, step = tm.param("xyz"), tm.param("step")
-    lc = [e for e in r.of_kind("call") if "LineCollection" in
-          (e.data.get("name") or "") or "Line3DCollection" in
-          (e.data.get("name") or "")]
-    ctx.require(len(lc) == 2, "colored_line_collection: collections not "
-                "found")
+_SEG = -7          # loop id standing for "the s-th segment"
 
-    def axis_pairs(k):
-        a = tm.sub(xyz, T("tuple", T("slice", tm.NONE, const(-1), step),
-                          tm.sub(PMI, const(k))))
-        b = tm.sub(xyz, T("tuple", T("slice", const(1), tm.NONE, step),
-                          tm.sub(PMI, const(k))))
-        return a, b
-    for e in lc:
+
+def _cell(rows: T, col) -> T:
+    return T("cell", rows, col)
+
+
+def _rows_cols(m: T):
+    """(rows, [columns]) of  points[rowslice][:, [c..]]  /
+    points[:, [c..]][rowslice]  (np.asarray looked through)"""
+    from ..lib import strip_asarray
+    m = Interp.unname(m)
+    cols = sl = None
+    for _ in range(3):
+        if m.op != "sub":
+            break
+        ix = m.args[1]
+        if ix.op == "tuple" and len(ix.args) == 2 and ix.args[0] is ALL \
+                and cols is None:
+            c = Interp.unname(ix.args[1])
+            if c.op not in ("list", "tuple") or not all(
+                    tm.is_const(x) for x in c.args):
+                return None
+            cols = [x.args[1] for x in c.args]
+        elif ix.op == "slice" and sl is None:
+            sl = ix
+        else:
+            return None
+        m = Interp.unname(m.args[0])
+    if cols is None or sl is None:
+        return None
+    return tm.sub(strip_asarray(m), sl), cols
+
+
+def _ix(t: Optional[T], i) -> Optional[T]:
+    """t[i] for i an int or the generic segment number (_SEG), through list /
+    tuple / zip / comprehension constructions and row / column selections of
+    2-D arrays; a scalar of the point array is normalised to
+    cell(rows, column) = rows[s, column]. None: not understood."""
+    if t is None:
+        return None
+    t = Interp.unname(t)
+    if t.op in ("list", "tuple"):
+        if isinstance(i, int) and not any(x.op == "star" for x in t.args) \
+                and -len(t.args) <= i < len(t.args):
+            return t.args[i]
+        return None
+    if is_call_to(t, "builtins.list", "builtins.tuple", "numpy.array",
+                  "numpy.asarray") and len(t.args[1]) == 1:
+        return _ix(t.args[1][0], i)
+    if is_call_to(t, "builtins.zip") and not t.args[2]:
+        parts = [_ix(x, i) for x in t.args[1]]
+        return None if any(p_ is None for p_ in parts) else \
+            T("tuple", *parts)
+    if t.op == "comp" and t.args[0] in ("list", "gen") and \
+            len(t.args[2]) == 1 and not t.args[3]:
+        it, lid = t.args[2][0]
+        fail = []
+
+        def rw(x: T):
+            if x.op == "elem" and x.args[1] == lid:
+                v = _ix(x.args[0], i)
+                if v is None:
+                    fail.append(x)
+                    return x
+                return v
+            return None
+        out = t.args[1].map(rw)
+        return None if fail else out
+    if t.op == "elem" and t.args[1] == _SEG and isinstance(i, int):
+        # a row of a 2-D selection: M[:, cols][s][i] = M[s, cols[i]]; the
+        # row slice and the column selection commute
+        rc = _rows_cols(t.args[0])
+        if rc is not None and -len(rc[1]) <= i < len(rc[1]):
+            return _cell(rc[0], rc[1][i])
+        return None
+    if is_call_to(t, "numpy.stack") and len(t.args[1]) == 1 and \
+            i == _SEG and tm.is_const(dict(t.args[2]).get("axis"), 1):
+        # np.stack((A, B), axis=1)[s] = (A[s], B[s])
+        parts = Interp.unname(t.args[1][0])
+        if parts.op in ("list", "tuple"):
+            ps = [_ix(x, _SEG) for x in parts.args]
+            return None if any(p_ is None for p_ in ps) else \
+                T("tuple", *ps)
+        return None
+    if i == _SEG:
+        # the s-th entry of an array expression
+        if t.op == "sub" and t.args[1].op == "tuple" and \
+                len(t.args[1].args) == 2 and \
+                t.args[1].args[0].op == "slice" and \
+                tm.is_const(t.args[1].args[1]):
+            # xyz[a:b:c, col][s] = xyz[a:b:c][s, col]
+            return _cell(tm.sub(t.args[0], t.args[1].args[0]),
+                         t.args[1].args[1].args[1])
+        return T("elem", t, _SEG)
+    return None
+
+
+def _segments(ctx, prog):
+    """decided per plot mode by evaluating the entry segs[s][v][k] (vertex v
+    of the s-th segment, plot axis k) of whatever construction is used:
+    it must be xyz[:-1:step][s, idx_k] for v = 0 and xyz[1::step][s, idx_k]
+    for v = 1"""
+    f = prog.func(PL + "colored_line_collection")
+    pmq = prog.cls(PM).qualname
+    xyz, step = tm.param("xyz"), tm.param("step")
+    inl = lambda fn: _helpers(fn) or fn.qualname == PL + "plot_mode_to_idx"
+    rows = (tm.sub(xyz, T("slice", tm.NONE, const(-1), step)),
+            tm.sub(xyz, T("slice", const(1), tm.NONE, step)))
+    for m in prog.enum_members(PM):
+        idx = _mode_idx(prog, pmq, m)
+        ctx.require(idx is not None, f"plot_mode_to_idx({m}) does not fold "
+                    f"to constants")
+        shown = [i for i in idx if i is not None]
+        r = Interp(prog, inline=inl).run(f, {"plot_mode": tm.enum(pmq, m)})
+        ctx.analysed["configs"] += 1
+        lc = [e for e in r.of_kind("call") if "LineCollection" in
+              (e.data.get("name") or "") or "Line3DCollection" in
+              (e.data.get("name") or "")]
+        lc = [e for e in lc if not tm.is_const(e.live, False)]
+        ctx.require(len(lc) == 1, f"colored_line_collection({m}): expected "
+                    f"one reachable collection, found {len(lc)}")
+        e = lc[0]
         three = "3D" in e.data["name"]
-        n = 3 if three else 2
-        segs = e.data["args"][0]
-        pe = per_element(segs)
-        ok = False
-        why = fmt(segs)
-        recognised = False
-        if pe is not None:
-            elt, lid, it, conds = pe
-            if not conds and is_call_to(it, "builtins.zip") and \
-                    len(it.args[1]) == n and is_call_to(
-                        elt, "builtins.list") and is_call_to(
-                        elt.args[1][0], "builtins.zip"):
-                recognised = True
-                inner = elt.args[1][0].args[1]
-                ok = len(inner) == n
-                for k in range(n):
-                    src = it.args[1][k]
-                    pk = per_element(src)
-                    a, b = axis_pairs(k)
-                    okk = pk is not None and not pk[3] and is_call_to(
-                        pk[2], "builtins.zip") and \
-                        tuple(pk[2].args[1]) == (a, b) and \
-                        pk[0] is T("list", T("elem", a, pk[1]),
-                                   T("elem", b, pk[1])) and \
-                        (inner[k] is T("elem", src, lid) or
-                         inner[k] is T("list", T("elem", a, lid),
-                                       T("elem", b, lid)))
-                    ok = ok and okk
-                    if not okk:
-                        why = f"axis {k}: {fmt(src)}"
-        if not recognised:
-            ctx.undecidable("C20.3", e, f"{'3-D' if three else '2-D'} "
-                            f"segments are not built as per-axis vertex "
-                            f"pairs zipped together (other construction): "
-                            f"{why[:160]}")
+        ctx.ob("C20.3", e, three == (len(shown) == 3),
+               f"{m}: a {'3-D' if three else '2-D'} collection for "
+               f"{len(shown)} plotted axes", key=f"C20.3:kind:{m}",
+               nontrivial=False)
+        segs = e.data["args"][0] if e.data["args"] else None
+        seg = _ix(segs, _SEG)
+        got, bad, unknown = {}, [], []
+        for v in (0, 1):
+            vert = _ix(seg, v)
+            for k in range(len(shown)):
+                c = _ix(vert, k)
+                if c is None or c.op != "cell":
+                    unknown.append((v, k))
+                    continue
+                got[(v, k)] = c
+                if c is not _cell(rows[v], shown[k]):
+                    bad.append((v, k, c))
+        # no further vertex / axis
+        extra = _ix(seg, 2) is not None or \
+            _ix(_ix(seg, 0), len(shown)) is not None
+        if unknown:
+            ctx.undecidable("C20.3", e, f"{m}: segment entry (vertex, axis) "
+                            f"{unknown[0]} of the construction is not "
+                            f"understood: {fmt(segs)[:160]}")
             continue
+        ok = not bad and not extra
         ctx.ob("C20.3", e, ok,
-               f"{'3-D' if three else '2-D'} segments: vertex pairs "
-               f"(xyz[:-1:step], xyz[1::step]) per axis idx_k, zipped in "
-               f"x, y{', z' if three else ''} order" if ok else
-               f"{'3-D' if three else '2-D'} segments deviate: {why}",
-               key=f"C20.3:segments:{'3d' if three else '2d'}")
+               f"{m}: segment s = (xyz[:-1:step][s], xyz[1::step][s]) in "
+               f"the columns {shown}" if ok else
+               (f"{m}: vertex {bad[0][0]}, axis {bad[0][1]} of a segment is "
+                f"{fmt(bad[0][2].args[0])}[s, {bad[0][2].args[1]}] — "
+                f"expected {fmt(rows[bad[0][0]])}[s, {shown[bad[0][1]]}]"
+                if bad else f"{m}: segments have extra vertices / axes"),
+               key=f"C20.3:segments:{m}")
         cols = dict(e.data["kwargs"]).get("colors")
         ctx.ob("C20.3", e, cols is tm.param("colors"),
                "segments are coloured by the given colour sequence, in "
-               "order", key=f"C20.3:colors:{'3d' if three else '2d'}",
+               "order", key=f"C20.3:colors:{m}",
                nontrivial=False)
     g = prog.func(PL + "traj_colormap")
     rg = Interp(prog, inline=_helpers).run(g)
